@@ -128,6 +128,15 @@ CLAIMED["C15"] = dict(
          "re-normalised and a later norm read/set follows the current values. NRA queries with the exact square-root encoding.",
     ref="DESIGN.md section 2 / C15",
 )
+CLAIMED["C17"] = dict(
+    text="Field.to_xarray / Field.from_xarray run against the real xarray with symbolic geometry and symbolic values: "
+         "coordinates equal the closed-form cell centres with the region's units, component coordinate, every attribute, "
+         "values cell by cell; the re-imported field equals the source attribute by attribute; with each attribute (or the "
+         "geometric ones together, or all) removed the mesh is rebuilt from the spacing (KeyError only for a missing nvdim or a "
+         "single-cell axis without cell); a coordinate perturbed by a symbolic eps beyond allclose's band is refused with and "
+         "without geometric attributes; refusals; dtype kinds incl. inferred complex dtypes natively.",
+    ref="DESIGN.md section 2 / C17",
+)
 PENDING_REASON = "check not built yet in this round (planned: DESIGN.md section 2); not claimed until it runs green"
 NA = {}
 
